@@ -18,8 +18,9 @@ Specification side of property C02, on top of the structure kernel K2 (`Model/St
 * `render : SSheet → List Tok` — the token list the tokenizer hands to the parser for that spelling.
 * `proj… : Struct.Rule → ARule` — the DOM projection: what the public accessors show, at the structure level
   (`Property.name` = `normalize(literalname)`, `Property.priority` = `normalize(literalpriority)`, comment
-  text, selector groups as `SelectorList._setSelectorText` splits them, values/selectors with the white space
-  and comments at both ENDS dropped — the sub-parsers strip them).
+  text, selector groups as `SelectorList._setSelectorText` splits them, values/selectors without comment
+  tokens and without the white space at both ends — the property counts comments between tokens as spelling,
+  and the sub-parsers skip white space at the ends).
 
 The theorem (Props/C02.lean) is `projSheet (parseSheet O M (render s)) = erase s`.
 -/
@@ -70,9 +71,18 @@ abbrev WGap := List Ws
 def WGap.toks (g : WGap) : List Tok := g.map Ws.tok
 
 def isGapTok (t : Tok) : Bool := t.typ == .s || t.typ == .comment
+def isS (t : Tok) : Bool := t.typ == .s
+def notComment (t : Tok) : Bool := t.typ != .comment
 
-/-- drop the white space / comment tokens at both ends of an opaque token list -/
-def trim (l : List Tok) : List Tok := ((l.dropWhile isGapTok).reverse.dropWhile isGapTok).reverse
+/-- an opaque token list without its comment tokens (comments between tokens are spelling) -/
+def strip (l : List Tok) : List Tok := l.filter notComment
+
+/-- drop the white space at both ends -/
+def trimS (l : List Tok) : List Tok := ((l.dropWhile isS).reverse.dropWhile isS).reverse
+
+/-- how an opaque token list (selector, value, media query) appears in the projection: without comments,
+without the white space at both ends (the sub-parsers skip it) -/
+def clean (l : List Tok) : List Tok := trimS (strip l)
 
 /-! ## names: letter case and simple escapes -/
 
@@ -165,7 +175,7 @@ structure SSheet where
 
 /-! ### `erase`: the abstract sheet a spelled sheet denotes -/
 
-def SDecl.erase (d : SDecl) : AItem := .decl d.name d.value (d.prio.map (·.2.1))
+def SDecl.erase (d : SDecl) : AItem := .decl d.name (strip d.value) (d.prio.map (·.2.1))
 
 def SItem.erase : SItem → Option AItem
   | .decl d => some d.erase
@@ -176,7 +186,7 @@ def SItem.erase : SItem → Option AItem
 def SBlock.erase (b : SBlock) : List AItem :=
   b.items.filterMap (fun p => p.1.erase) ++ (b.last.map SDecl.erase).toList
 
-def SSel.erase (s : SSel) : List (List Tok) := s.first :: s.more.map (·.2.1)
+def SSel.erase (s : SSel) : List (List Tok) := strip s.first :: s.more.map (fun p => strip p.2.1)
 
 def SRule.erase : SRule → ARule
   | .comment b => .comment b
@@ -248,14 +258,14 @@ def selGroupsFuel : Nat → List Tok → List (List Tok)
 def selGroups (ts : List Tok) : List (List Tok) := selGroupsFuel ts.length ts
 
 def projItem : Item → Option AItem
-  | .decl d => some (.decl (normalize d.name.val) (trim d.value) (d.prio.map (fun t => normalize t.val)))
+  | .decl d => some (.decl (normalize d.name.val) (clean d.value) (d.prio.map (fun t => normalize t.val)))
   | .comment t => some (.comment (commentBody t.val))
   | .unknown toks => some (.unknown toks)
   | .dropped _ => none
 
 def projRule : Rule → ARule
   | .comment t => .comment (commentBody t.val)
-  | .style _ sel items => .style ((selGroups sel).map trim) (items.filterMap projItem)
+  | .style _ sel items => .style ((selGroups sel).map clean) (items.filterMap projItem)
   | .unknown toks => .unknown toks
   | .at_ k _ => .other k
   | .ns _ _ _ => .other .namespace_
